@@ -8,7 +8,7 @@ using namespace wc;
 #define VK_UNSUB 0          // 0: async_subscribe, 1: async_unsubscribe
 #endif
 #ifndef VK_DROP
-#define VK_DROP 0            // how the connection dies: 0 reset, 1 eof / broken pipe, 2 aborted, 3 any of them (forked)
+#define VK_DROP 0            // how the connection dies: 0 reset, 1 eof / broken pipe, 2 aborted, 3 seen by the reader only (write in flight is aborted by the reconnect), 9 any of them (forked)
 #endif
 #ifndef VK_MODE
 #define VK_MODE 14          // 14: verdict monitor, 2: no-loss monitor
